@@ -12,6 +12,7 @@ from .. import install, refs, gen, reach
 from ..install import ctx as _ctx
 from ..bootstrap import smod
 
+REPO_TESTS_UNDER_CONTRACTS = True
 RULE = ('cases = (function ma | arma_estimate | class, data kind, real/complex, N in 16..256, '
         '(P, Q, lag) or (Q, M) in the stated domain with P on both sides of the solver switch at 4, '
         'NFFT even/odd, sampling); non-trivial when P+Q >= 3 or Q >= 2; distinct = distinct descriptor')
